@@ -28,7 +28,10 @@ var skipType = map[reflect.Type]bool{
 	reflect.TypeOf(&ast.Source{}):   true,
 }
 
-func dumpAST(w io.Writer, v reflect.Value, seen map[uintptr]bool) {
+func dumpAST(w io.Writer, v reflect.Value, seen map[uintptr]bool) { dumpWith(w, v, seen, nameOnly) }
+
+// dumpWith: nameOnly = the pointer types that are back-references (printed by name, not followed)
+func dumpWith(w io.Writer, v reflect.Value, seen map[uintptr]bool, nameOnly map[reflect.Type]bool) {
 	switch v.Kind() {
 	case reflect.Ptr:
 		if v.IsNil() {
@@ -48,13 +51,13 @@ func dumpAST(w io.Writer, v reflect.Value, seen map[uintptr]bool) {
 		}
 		seen[v.Pointer()] = true
 		io.WriteString(w, "&")
-		dumpAST(w, v.Elem(), seen)
+		dumpWith(w, v.Elem(), seen, nameOnly)
 	case reflect.Interface:
 		if v.IsNil() {
 			io.WriteString(w, "nil")
 			return
 		}
-		dumpAST(w, v.Elem(), seen)
+		dumpWith(w, v.Elem(), seen, nameOnly)
 	case reflect.Struct:
 		fmt.Fprintf(w, "%s{", v.Type().Name())
 		for i := 0; i < v.NumField(); i++ {
@@ -62,14 +65,14 @@ func dumpAST(w io.Writer, v reflect.Value, seen map[uintptr]bool) {
 				continue
 			}
 			fmt.Fprintf(w, "%s:", v.Type().Field(i).Name)
-			dumpAST(w, v.Field(i), seen)
+			dumpWith(w, v.Field(i), seen, nameOnly)
 			io.WriteString(w, ";")
 		}
 		io.WriteString(w, "}")
 	case reflect.Slice, reflect.Array:
 		fmt.Fprintf(w, "[%d:", v.Len())
 		for i := 0; i < v.Len(); i++ {
-			dumpAST(w, v.Index(i), seen)
+			dumpWith(w, v.Index(i), seen, nameOnly)
 			io.WriteString(w, ",")
 		}
 		// the spare capacity of the backing array belongs to the document too: whoever holds this slice (or a
@@ -79,7 +82,7 @@ func dumpAST(w io.Writer, v reflect.Value, seen map[uintptr]bool) {
 			full := v.Slice3(0, v.Cap(), v.Cap())
 			fmt.Fprintf(w, "|spare %d:", v.Cap()-v.Len())
 			for i := v.Len(); i < v.Cap(); i++ {
-				dumpAST(w, full.Index(i), seen)
+				dumpWith(w, full.Index(i), seen, nameOnly)
 				io.WriteString(w, ",")
 			}
 		}
@@ -90,7 +93,7 @@ func dumpAST(w io.Writer, v reflect.Value, seen map[uintptr]bool) {
 		io.WriteString(w, "map[")
 		for _, k := range keys {
 			fmt.Fprintf(w, "%v=", k)
-			dumpAST(w, v.MapIndex(k), seen)
+			dumpWith(w, v.MapIndex(k), seen, nameOnly)
 			io.WriteString(w, ",")
 		}
 		io.WriteString(w, "]")
